@@ -90,6 +90,10 @@ def impl(case):
     op = case["op"]
     if op == "decl":
         return impl_decl(case)
+    if op == "ptype":
+        return impl_ptype(case)
+    if op == "multi":
+        return impl_multi(case)
     if op == "validator":
         f = getattr(Constraints, case["name"])
         v, b = decode(case["value"]), decode(case["bound"])
@@ -702,6 +706,387 @@ def decl_contexts(T, v):
 
 
 # ------------------------------------------------------------------------------------------------
+# op "ptype": the predefined types exported by utype/types.py (one of the property's anchor files).  Their declarations are
+# read from the SOURCE TEXT with `ast` (never from the live classes) and compared with the frozen table below (static
+# obligation: a changed base / origin / constraint / hook of a predefined type breaks it); their documented meaning is the
+# independent oracle `ptype_sat`, evaluated at and around every boundary incl. fractional floats and bool/int twins.
+# ------------------------------------------------------------------------------------------------
+
+def read_types_source(path):
+    """class name -> {bases, attrs (source text of the assigned expressions), hooks {name: digest of the body}};
+    '=Name' -> source text of a module-level combined type"""
+    import ast
+    import hashlib
+    tree = ast.parse(open(path).read())
+    out = {}
+
+    def visit(body, prefix=""):
+        for n in body:
+            if isinstance(n, ast.ClassDef):
+                d = {"bases": [ast.unparse(b) for b in n.bases], "attrs": {}, "hooks": {}}
+                for st in n.body:
+                    if isinstance(st, ast.Assign) and len(st.targets) == 1 and isinstance(st.targets[0], ast.Name):
+                        d["attrs"][st.targets[0].id] = ast.unparse(st.value)
+                    elif isinstance(st, ast.FunctionDef):
+                        d["hooks"][st.name] = hashlib.sha1(ast.dump(st).encode()).hexdigest()[:12]
+                out[prefix + n.name] = d
+            elif isinstance(n, ast.FunctionDef):
+                visit(n.body, prefix + n.name + ".")
+            elif isinstance(n, ast.If):
+                visit(n.body, prefix)
+                visit(n.orelse, prefix)
+            elif isinstance(n, ast.Assign) and len(n.targets) == 1 and isinstance(n.targets[0], ast.Name) and prefix == "":
+                out["=" + n.targets[0].id] = ast.unparse(n.value)
+    visit(tree.body)
+    return out
+
+
+FROZEN_TYPES = {'=AbnormalFloat': 'NanFloat ^ InfinityFloat',
+ '=Divisor': 'Float & ~Zero',
+ '=NormalFloat': 'Float & ~AbnormalFloat',
+ 'Array': {'attrs': {'__origin__': 'list', 'primitive': "'array'"},
+           'bases': ['Rule'],
+           'hooks': {'check_type': 'bb72ad583941'}},
+ 'Bool': {'attrs': {'__origin__': 'bool'}, 'bases': ['Rule'], 'hooks': {}},
+ 'Date': {'attrs': {'format': "'date'", 'primitive': "'string'"}, 'bases': ['date', 'Rule'], 'hooks': {}},
+ 'Datetime': {'attrs': {'format': "'datetime'", 'primitive': "'string'"}, 'bases': ['datetime', 'Rule'], 'hooks': {}},
+ 'Day': {'attrs': {'ge': '1', 'le': '31'}, 'bases': ['Int'], 'hooks': {}},
+ 'EmailStr': {'attrs': {'format': "'email'",
+                        'regex': "'([A-Za-z0-9]+[.-_])*[A-Za-z0-9]+@[A-Za-z0-9-]+(\\\\.[A-Z|a-z]{2,})+'"},
+              'bases': ['Str'],
+              'hooks': {}},
+ 'Float': {'attrs': {}, 'bases': ['float', 'Number'], 'hooks': {}},
+ 'Hour': {'attrs': {'ge': '0', 'le': '23'}, 'bases': ['Int'], 'hooks': {}},
+ 'InfinityFloat': {'attrs': {'enum': "[float('inf'), float('-inf')]"}, 'bases': ['Float'], 'hooks': {}},
+ 'Int': {'attrs': {}, 'bases': ['int', 'Number'], 'hooks': {}},
+ 'Minute': {'attrs': {'ge': '0', 'le': '59'}, 'bases': ['Int'], 'hooks': {}},
+ 'Month': {'attrs': {'ge': '1', 'le': '12'}, 'bases': ['Int'], 'hooks': {}},
+ 'NanFloat': {'attrs': {}, 'bases': ['Float'], 'hooks': {'post_validate': 'ec4706d6f157'}},
+ 'NaturalInt': {'attrs': {'ge': '0'}, 'bases': ['Int'], 'hooks': {}},
+ 'NegativeFloat': {'attrs': {'lt': '0'}, 'bases': ['Float'], 'hooks': {}},
+ 'NegativeInt': {'attrs': {'lt': '0'}, 'bases': ['Int'], 'hooks': {}},
+ 'Null': {'attrs': {'__origin__': 'type(None)', 'primitive': "'null'"}, 'bases': ['Rule'], 'hooks': {}},
+ 'Number': {'attrs': {'primitive': "'number'"}, 'bases': ['Rule'], 'hooks': {'check_type': '12f77da5dd67'}},
+ 'Object': {'attrs': {'__origin__': 'dict', 'primitive': "'object'"},
+            'bases': ['Rule'],
+            'hooks': {'__class_getitem__': '26c8b3a4629d', 'check_type': 'a378af2f7348'}},
+ 'PositiveFloat': {'attrs': {'gt': '0'}, 'bases': ['Float'], 'hooks': {}},
+ 'PositiveInt': {'attrs': {'gt': '0'}, 'bases': ['Int'], 'hooks': {}},
+ 'Quarter': {'attrs': {'ge': '1', 'le': '4'}, 'bases': ['Int'], 'hooks': {}},
+ 'Second': {'attrs': {'ge': '0', 'le': '59'}, 'bases': ['Int'], 'hooks': {}},
+ 'SlugStr': {'attrs': {'format': "'slug'", 'regex': "'[a-z0-9]+(?:-[a-z0-9]+)*'"}, 'bases': ['Str'], 'hooks': {}},
+ 'Str': {'attrs': {}, 'bases': ['str', 'Rule'], 'hooks': {}},
+ 'Timedelta': {'attrs': {'format': "'duration'", 'primitive': "'string'"},
+               'bases': ['timedelta', 'Rule'],
+               'hooks': {}},
+ 'Timestamp': {'attrs': {'format': "'timestamp'", 'ge': '0'},
+               'bases': ['Float'],
+               'hooks': {'pre_validate': 'e8ed952988e5'}},
+ 'Week': {'attrs': {'ge': '1', 'le': '53'}, 'bases': ['Int'], 'hooks': {}},
+ 'WeekDay': {'attrs': {'ge': '1', 'le': '7'}, 'bases': ['Int'], 'hooks': {}},
+ 'Year': {'attrs': {'ge': '1', 'le': '9999'}, 'bases': ['Int'], 'hooks': {}},
+ 'Zero': {'attrs': {'const': '0'}, 'bases': ['Rule'], 'hooks': {}},
+ 'enum_array.EnumArray': {'attrs': {'__args__': '(EnumItem,)',
+                                    '__ellipsis_args__': 'issubclass(array_type, tuple)',
+                                    '__origin__': 'array_type',
+                                    'unique_items': 'unique'},
+                          'bases': ['Array'],
+                          'hooks': {}},
+ 'enum_array.EnumItem': {'attrs': {'__origin__': 'item_type', 'enum': 'item_enum'}, 'bases': ['Rule'], 'hooks': {}},
+ 'round_number.RoundNumber': {'attrs': {'decimal_places': 'Lax(precision)'},
+                              'bases': ['num_type', 'Rule'],
+                              'hooks': {}}}
+
+
+def types_static_obligation(repo) -> list:
+    try:
+        live = read_types_source(str(repo / "utype" / "types.py"))
+    except Exception as e:
+        return [f"utype/types.py cannot be read: {type(e).__name__}"]
+    out = []
+    for k in sorted(set(live) | set(FROZEN_TYPES)):
+        if live.get(k) != FROZEN_TYPES.get(k):
+            out.append(f"utype/types.py: declaration of {k.lstrip('=')} is {live.get(k)} (frozen table: {FROZEN_TYPES.get(k)})")
+    return out
+
+
+SLUG_RE = r"[a-z0-9]+(?:-[a-z0-9]+)*"
+EMAIL_RE = r"([A-Za-z0-9]+[.-_])*[A-Za-z0-9]+@[A-Za-z0-9-]+(\.[A-Z|a-z]{2,})+"
+INT_RANGES = {"Year": (1, 9999), "Month": (1, 12), "Day": (1, 31), "Week": (1, 53), "WeekDay": (1, 7), "Quarter": (1, 4),
+              "Hour": (0, 23), "Minute": (0, 59), "Second": (0, 59)}
+PTYPES = ["Int", "Float", "Str", "Bool", "Array", "PositiveInt", "NaturalInt", "NegativeInt", "PositiveFloat", "NegativeFloat",
+          "NanFloat", "InfinityFloat", "AbnormalFloat", "NormalFloat", "Zero", "Divisor", "Timestamp", "SlugStr", "EmailStr",
+          "enum_array", "enum_array_unique"] + sorted(INT_RANGES)
+PTYPE_SOURCE = {"Int": int, "PositiveInt": int, "NaturalInt": int, "NegativeInt": int, "Float": float, "PositiveFloat": float,
+                "NegativeFloat": float, "NanFloat": float, "InfinityFloat": float, "AbnormalFloat": float, "NormalFloat": float,
+                "Divisor": float, "Timestamp": float, "Str": str, "SlugStr": str, "EmailStr": str, "Bool": bool, "Array": list,
+                "enum_array": list, "enum_array_unique": list, "Zero": None}
+PTYPE_SOURCE.update({k: int for k in INT_RANGES})
+ENUM_ARRAY_ITEMS = ["a", "b", "c"]
+
+
+def ptype_sat(name, v):
+    """the documented meaning of a predefined type on a value of its source type (Zero: on any number) -> accepted?"""
+    src = PTYPE_SOURCE[name]
+    if name == "Zero":
+        # `const = 0` without a source type: the value itself must equal 0 and be of the same type up to the int/float and
+        # int/Decimal tolerance — no conversion comes first, so no fraction and no bool is a Zero
+        if isinstance(v, bool):
+            return False
+        if isinstance(v, (int, float, Decimal)):
+            try:
+                return bool(v == 0)
+            except Exception:
+                raise Undefined
+        raise Undefined
+    if src is None or type(v) is not src:
+        raise Undefined
+    if name in ("Int", "Float", "Str", "Bool", "Array"):
+        return True
+    if name == "PositiveInt":
+        return v > 0
+    if name == "NaturalInt":
+        return v >= 0
+    if name == "NegativeInt":
+        return v < 0
+    if name in INT_RANGES:
+        lo, hi = INT_RANGES[name]
+        return lo <= v <= hi
+    if name == "PositiveFloat":
+        return v > 0
+    if name == "NegativeFloat":
+        return v < 0
+    if name == "Timestamp":
+        return v >= 0
+    if name == "NanFloat":
+        return v != v
+    if name == "InfinityFloat":
+        return v in (float("inf"), float("-inf"))
+    if name == "AbnormalFloat":
+        return v != v or v in (float("inf"), float("-inf"))
+    if name == "NormalFloat":
+        return v == v and v not in (float("inf"), float("-inf"))
+    if name == "Divisor":
+        return not (v == 0)          # a float that is not zero (a NaN is not zero either)
+    if name == "SlugStr":
+        return re.fullmatch(SLUG_RE, v) is not None
+    if name == "EmailStr":
+        return re.fullmatch(EMAIL_RE, v) is not None
+    if name in ("enum_array", "enum_array_unique"):
+        if not all(type(x) is str for x in v):
+            raise Undefined
+        ok = all(x in ENUM_ARRAY_ITEMS for x in v)
+        if name == "enum_array_unique":
+            ok = ok and len(set(v)) == len(v)
+        return ok
+    raise Undefined
+
+
+def ptype_has_source(name):
+    """isinstance is about values of the source type: Zero has none, and neither has anything built on it"""
+    return name not in ("Zero", "Divisor")
+
+
+FLOAT_POINTS = [0.0, -0.0, 0.5, -0.25, 1e-9, -1e-9, 1.0, -1.0, 0.999, 2.5, 1e300, float("nan"), float("inf"), float("-inf"),
+                5e-324, -5e-324, 100.0, 1.0000000000000002]
+SLUGS = ["abc", "a-b", "a--b", "-a", "a-", "A-b", "a1-2b", "", "a_b", "a-b-c", "0", "a b"]
+EMAILS = ["a@b.co", "a.b@c-d.org", "a@b", "@b.co", "a@b.c", "a-b@cd.io", "a@b.co.uk", "ab", "a@@b.co", "A1@x.YZ", "a@b.c0m"]
+
+
+def gen_ptype_case(rng):
+    name = rng.choice(PTYPES + ["Zero", "Divisor", "NormalFloat", "Zero", "Divisor"])
+    src = PTYPE_SOURCE[name]
+    if name in ("Zero", "Divisor"):
+        v = rng.choice(FLOAT_POINTS + [0, 1, -1, 2, True, False, Decimal("0"), Decimal("0.0"), Decimal("0.5"), Decimal("1"), "0", 10 ** 20])
+        if name == "Divisor" and rng.random() < 0.6:
+            v = rng.choice(FLOAT_POINTS + [rng.randint(-40, 40) / rng.choice([1, 2, 4, 8, 16, 64, 1024])])
+    elif src is int:
+        lo, hi = INT_RANGES.get(name, (0, 0))
+        v = rng.choice([lo - 1, lo, lo + 1, hi - 1, hi, hi + 1, 0, 1, -1, 10 ** 12, -(10 ** 12), rng.randint(-5, 70)])
+        if rng.random() < 0.12:
+            v = rng.choice([True, False, float(v), float(v) + 0.5, Decimal(v), str(v)])      # twins / neighbours of another type
+    elif src is float:
+        v = rng.choice(FLOAT_POINTS + [rng.randint(-40, 40) / rng.choice([1, 2, 4, 8, 16])])
+        if rng.random() < 0.12:
+            v = rng.choice([0, 1, -1, True, False, Decimal("0.5"), "0.5", "nan"])
+    elif src is str:
+        v = rng.choice(SLUGS + EMAILS) if name != "Str" else rng.choice(SLUGS + [1, 1.5])
+    elif src is bool:
+        v = rng.choice([True, False, 1, 0, "true", "false"])
+    else:
+        pool = ENUM_ARRAY_ITEMS + ["d", "A", 1]
+        v = [rng.choice(pool) for _ in range(rng.randint(0, 4))]
+    return {"op": "ptype", "name": name, "value": enc2(v)}
+
+
+def impl_ptype(case):
+    import warnings
+    warnings.simplefilter("ignore")
+    from utype import types
+    name = case["name"]
+    if name == "enum_array":
+        T = types.enum_array(list(ENUM_ARRAY_ITEMS), item_type=str)
+    elif name == "enum_array_unique":
+        T = types.enum_array(list(ENUM_ARRAY_ITEMS), item_type=str, unique=True)
+    else:
+        T = getattr(types, name)
+    v = dec2(case["value"])
+    out = {"parse": _outcome(lambda: T(v))}
+    if "ok" in out["parse"]:
+        r = T(v)
+        out["result_equal"] = bool(r == v) or bool(r != r and v != v)
+        out["result_type"] = type(r).__name__
+    try:
+        out["isinstance"] = bool(isinstance(v, T))
+    except Exception as e:
+        out["isinstance"] = "raised " + type(e).__name__
+    return out
+
+
+# ------------------------------------------------------------------------------------------------
+# op "multi": several declarations with EQUAL-but-not-identical attributes (1 / True / 1.0, 0 / False / 0.0, …) made one
+# after the other in ONE process — through Field(...), Rule.annotate, utype.apply and class bodies.  Every declared type must
+# answer as the same declaration does when it is made ALONE in a fresh process, and as the oracle says.  A fresh interpreter
+# is started per case; it forks one child for the sequence and one child per declaration alone.
+# ------------------------------------------------------------------------------------------------
+
+TWIN_FAMILIES = [[1, True, 1.0, Decimal("1")], [0, False, 0.0, Decimal("0")], [2, 2.0, Decimal("2")], ["a", "A"], [3, 3.0, True]]
+MULTI_CHILD = r"""
+import json, os, sys, warnings
+warnings.simplefilter("ignore")
+sys.path.insert(0, os.environ["VERIF_DIR"]); sys.path.insert(0, os.environ["UTYPE_REPO"])
+import utype
+from utype.utils.exceptions import ParseError
+from harness.c02 import dec2, enc2, ORIGINS
+
+def declare(d, i):
+    origin = ORIGINS[d["origin"]] if d.get("origin") else None
+    cs = {k: dec2(b) for k, b in d["cs"]}
+    via = d["via"]
+    if via == "field":
+        attrs = {"__module__": "__main__", "x": utype.Field(**cs)}
+        if origin is not None:
+            attrs["__annotations__"] = {"x": origin}
+        S = type(f"S{i}", (utype.Schema,), attrs)
+        T = S.__parser__.fields["x"].type
+        return T, (lambda v: S(x=v)["x"])
+    if via == "annotate":
+        T = utype.Rule.annotate(origin, constraints=cs)
+        return T, T
+    if via == "apply":
+        T = utype.apply(**cs)(origin)
+        return T, T
+    T = type(f"T{i}", ((origin, utype.Rule) if origin is not None else (utype.Rule,)), dict(cs))
+    return T, T
+
+def probe(T, parse, probes):
+    out = []
+    for e in probes:
+        v = dec2(e)
+        try:
+            r = parse(v)
+            o = {"ok": enc2(r), "type": type(r).__name__}
+        except ParseError:
+            o = {"perr": 1}
+        except Exception as ex:
+            o = {"escape": type(ex).__name__}
+        try:
+            o["isinstance"] = bool(isinstance(v, T)) if isinstance(T, type) else None
+        except Exception as ex:
+            o["isinstance"] = "raised " + type(ex).__name__
+        out.append(o)
+    return out
+
+def in_child(fn):
+    r, w = os.pipe()
+    pid = os.fork()
+    if pid == 0:
+        os.close(r)
+        try:
+            res = fn()
+        except BaseException as ex:
+            res = {"child_exc": type(ex).__name__}
+        os.write(w, json.dumps(res).encode()); os._exit(0)
+    os.close(w)
+    buf = b""
+    while True:
+        chunk = os.read(r, 1 << 16)
+        if not chunk: break
+        buf += chunk
+    os.waitpid(pid, 0)
+    return json.loads(buf.decode() or "null")
+
+case = json.loads(sys.stdin.read())
+def sequence():
+    built = []
+    for i, d in enumerate(case["decls"]):
+        try:
+            built.append(declare(d, i))
+        except Exception as ex:
+            built.append(type(ex).__name__)
+    # all declarations exist before the first value is parsed
+    return [b if isinstance(b, str) else probe(b[0], b[1], case["probes"]) for b in built]
+def alone(i):
+    def run():
+        try:
+            T, parse = declare(case["decls"][i], i)
+        except Exception as ex:
+            return type(ex).__name__
+        return probe(T, parse, case["probes"])
+    return run
+print(json.dumps({"sequence": in_child(sequence), "alone": [in_child(alone(i)) for i in range(len(case["decls"]))]}))
+"""
+
+
+def gen_multi_case(rng):
+    fam = rng.choice(TWIN_FAMILIES)
+    numeric = not isinstance(fam[0], str)
+    key = rng.choice(["const", "const", "const", "enum", "ge", "le", "multiple_of"]) if numeric else rng.choice(["const", "enum"])
+    decls = []
+    origins = [None, None, "int", "float"] if numeric else [None, "str"]
+    base_origin = rng.choice(origins)
+    for b in rng.sample(fam, min(len(fam), rng.choice([2, 2, 3, 4]))):
+        via = rng.choice(["field", "field", "annotate", "annotate", "apply", "class"])
+        origin = base_origin if rng.random() < 0.8 else rng.choice(origins)
+        if key in ("ge", "le", "multiple_of") and origin is None:
+            origin = "int"
+        if via == "apply" and origin is None:
+            origin = "int" if numeric else "str"
+        bound = [b, fam[0] + 5 if numeric else "zz"] if key == "enum" else b
+        decls.append({"via": via, "origin": origin, "cs": [[key, enc2(bound)]]})
+    if rng.random() < 0.5:
+        # the same declaration twice, through two different routes (one of them utype.apply)
+        d0 = decls[0]
+        if d0["origin"]:
+            decls.insert(rng.randrange(len(decls) + 1), dict(d0, via="apply" if d0["via"] != "apply" else "field"))
+    probes = list(fam) + ([fam[0] - 1, fam[0] + 1, fam[0] + 5, float(fam[0]) + 0.5] if numeric else ["zz", "b", ""])
+    return {"op": "multi", "decls": decls, "probes": [enc2(x) for x in probes]}
+
+
+def impl_multi(case):
+    import os
+    import subprocess
+    import sys
+    from .common import VERIF
+    env = dict(os.environ, VERIF_DIR=str(VERIF))
+    p = subprocess.run([sys.executable, "-c", MULTI_CHILD], input=json.dumps(case), capture_output=True, text=True, env=env, timeout=60)
+    if p.returncode != 0 or not p.stdout.strip():
+        return {"error": (p.stderr or "")[-300:]}
+    return json.loads(p.stdout.strip().splitlines()[-1])
+
+
+def multi_expected(d, v):
+    """the documented verdict of one declaration on a probe value (only where the property speaks: a value of the source type,
+    or any value for an origin-less const / enum)"""
+    if d["via"] == "apply":
+        raise Undefined            # a hidden (@utype.apply) type takes instances of its origin as they are, by design
+    origin = ORIGINS[d["origin"]] if d.get("origin") else None
+    if origin is not None and type(v) is not origin:
+        raise Undefined
+    return accept_cs([(k, dec2(b)) for k, b in d["cs"]], v)
+
+
+# ------------------------------------------------------------------------------------------------
 # generators
 # ------------------------------------------------------------------------------------------------
 
@@ -1296,10 +1681,19 @@ class C02(Check):
     search_budget = {"quick": 8000, "thorough": 80000}
 
     decl_share = 0.3
+    ptype_share = 0.08
+    multi_share = 0.012
 
     def cases(self, tier, rng, n):
         out = []
         for _ in range(n):
+            k0 = rng.random()
+            if k0 < self.ptype_share:
+                out.append(gen_ptype_case(rng))
+                continue
+            if k0 < self.ptype_share + (self.multi_share if tier != "thorough" else self.multi_share / 4):
+                out.append(gen_multi_case(rng))
+                continue
             if rng.random() < self.decl_share:
                 out.append(gen_dict_decl_case(rng) if rng.random() < 0.08 else gen_decl_case(rng))
                 continue
@@ -1334,6 +1728,23 @@ class C02(Check):
         if case["op"] == "rule":
             lax = set(case.get("lax", []))
             line["constraints"] = [[("lax_" + n) if n in lax else n, b] for n, b in case["constraints"]]
+        if case["op"] == "multi":
+            return {"op": "skip"}
+        if case["op"] == "ptype":
+            # the simple predefined types are strict constraint sets on a source type: the model runs the FROZEN declaration
+            name, v = case["name"], dec2(case["value"])
+            d = FROZEN_TYPES.get(name)
+            if d is None or d["hooks"] or PTYPE_SOURCE.get(name) not in (int, float, str) or type(v) is not PTYPE_SOURCE[name]:
+                return {"op": "skip"}
+            cs = []
+            for k, src in d["attrs"].items():
+                if k in STRICT:
+                    try:
+                        cs.append([k, encode(eval(src, {"float": float, "__builtins__": {}}))])
+                    except Exception:
+                        return {"op": "skip"}
+            rule_case = {"op": "rule", "origin": PTYPE_SOURCE[name].__name__, "constraints": cs, "lax": [], "value": encode(v)}
+            return dict(rule_case, prims=prims_for(rule_case))
         if case["op"] == "decl":
             try:
                 mro = mro_bodies(case)
@@ -1368,6 +1779,15 @@ class C02(Check):
             if "err" in io and "err" in mo:
                 return None if io["err"] == mo["err"] else f"exception differs: impl {io['err']} model {mo['err']}"
             return f"verdict differs: impl {io} model {mo}"
+        if op == "multi":
+            return None
+        if op == "ptype":
+            p = io["parse"]
+            if "escape" in p:
+                return None
+            if ("ok" in p) != ("ok" in mo):
+                return f"predefined type {case['name']}: impl {p} / model of the frozen declaration {mo}"
+            return None
         if op == "decl":
             if io.get("decl") != "ok" or "validators" not in mo:
                 return None
@@ -1434,6 +1854,58 @@ class C02(Check):
                     same = False
                 if not same:
                     return f"{name}({v!r}, {b!r}) returned {r!r}, not equal to its input"
+            return None
+        if op == "ptype":
+            name, v = case["name"], dec2(case["value"])
+            p = io["parse"]
+            if "escape" in p:
+                return None
+            got = "ok" in p
+            try:
+                want = ptype_sat(name, v)
+            except Undefined:
+                want = None
+            except Exception:
+                want = None
+            if want is not None and want != got:
+                return (f"types.{name}({v!r}): by its documented meaning the value is {'valid' if want else 'not valid'} but parse "
+                        f"{'succeeded with ' + repr(dec2(p['ok'])) if got else 'failed with ' + str(p.get('perr'))}")
+            if want and got and not io.get("result_equal"):
+                return f"types.{name}({v!r}) accepted but returned {dec2(p['ok'])!r}, not equal to its input"
+            src = PTYPE_SOURCE.get(name)
+            if ptype_has_source(name) and src is not None and type(v) is src and io.get("isinstance") != got:
+                return f"isinstance({v!r}, types.{name}) = {io.get('isinstance')} but parse {'succeeds' if got else 'fails'}"
+            return None
+        if op == "multi":
+            if "sequence" not in io:
+                return None
+            probes = [dec2(e) for e in case["probes"]]
+
+            def text(i):
+                d = case["decls"][i]
+                return f"{d['via']}({d.get('origin')}, {', '.join(k + '=' + repr(dec2(b)) for k, b in d['cs'])})"
+            seq_text = "; ".join(text(i) for i in range(len(case["decls"])))
+            for i, (sq, al) in enumerate(zip(io["sequence"], io["alone"])):
+                if isinstance(sq, str) or isinstance(al, str) or sq is None or al is None:
+                    if sq != al:
+                        return f"declaration #{i} {text(i)} alone: {al if isinstance(al, str) else 'declared'}; in the sequence [{seq_text}]: {sq if isinstance(sq, str) else 'declared'}"
+                    continue
+                for v, a, b in zip(probes, sq, al):
+                    if "escape" in a or "escape" in b:
+                        continue
+                    same_ = ("ok" in a) == ("ok" in b) and a.get("isinstance") == b.get("isinstance") and \
+                        ("ok" not in a or (a["type"] == b["type"] and json.dumps(a["ok"], sort_keys=True) == json.dumps(b["ok"], sort_keys=True)))
+                    if not same_:
+                        return (f"declaration #{i} {text(i)} on {v!r}: alone in a fresh process -> {b}, after the other declarations "
+                                f"of [{seq_text}] -> {a}")
+                    try:
+                        want = multi_expected(case["decls"][i], v)
+                    except Undefined:
+                        continue
+                    except Exception:
+                        continue
+                    if want != ("ok" in a):
+                        return f"declaration #{i} {text(i)} on {v!r}: the declared constraint {'holds' if want else 'does not hold'} but parse gave {a}"
             return None
         if op == "decl":
             if io.get("decl") != "ok":
@@ -1533,6 +2005,8 @@ class C02(Check):
     def key(self, case, io):
         if case["op"] == "cmp":
             return None
+        if case["op"] in ("ptype", "multi"):
+            return json.dumps(case, sort_keys=True)
         try:
             if case["op"] == "validator":
                 v, b = decode(case["value"]), decode(case["bound"])
@@ -1560,6 +2034,10 @@ class C02(Check):
     def distribution(self, case, io):
         if case["op"] == "validator":
             return f"validator/{case['name']}/{'ok' if 'ok' in io else io.get('err')}"
+        if case["op"] == "ptype":
+            return f"ptype/{case['name']}/{'ok' if 'ok' in io['parse'] else 'perr'}"
+        if case["op"] == "multi":
+            return f"multi/{'+'.join(sorted(set(d['via'] for d in case['decls'])))}"
         if case["op"] == "decl":
             if io.get("decl") != "ok":
                 return f"decl/{case['shape']}/decl-{io.get('decl')}"
@@ -1576,6 +2054,12 @@ class C02(Check):
             v, b = decode(case["value"]), decode(case["bound"])
             for x in around(rng, b) + around(rng, v):
                 out.append(dict(case, value=encode(x)))
+        elif case["op"] == "ptype":
+            for _ in range(30):
+                c = gen_ptype_case(rng)
+                out.append(dict(c, name=case["name"]) if rng.random() < 0.5 and PTYPE_SOURCE.get(c["name"]) is PTYPE_SOURCE.get(case["name"]) else c)
+        elif case["op"] == "multi":
+            out += [gen_multi_case(rng) for _ in range(4)]
         elif case["op"] == "decl":
             v = dec2(case["value"])
             if isinstance(v, (list, tuple, set)):
@@ -1613,7 +2097,11 @@ class C02(Check):
 
     def extra_static(self, tier):
         notes = (self._notes())
-        return [f"T1: {n}" for n in notes]
+        out = [f"T1: {n}" for n in notes]
+        if self.prop == "C02":
+            from .common import REPO
+            out += types_static_obligation(REPO)
+        return out
 
     @staticmethod
     def _notes():
